@@ -28,7 +28,8 @@ import (
 //            (what net/http hands a handler for a chunked upload, also when the body turns out empty) | nil: Body nil
 //   hosts  comma list of u/c/script : u 1 = marked unhealthy; c = in-flight count before the request;
 //          script = outcome of the successive attempts on that host, last repeats:
-//          K answers, F fails before reading the body, R fails after reading it, C context.Canceled, T ErrMaxBytesExceeded
+//          K answers, H fails before reading the body and a health-check pass that finds every backend alive runs
+//          before the next Select (a flapping backend: passes /health, fails requests), F fails before reading the body, R fails after reading it, C context.Canceled, T ErrMaxBytesExceeded
 //   durations in milliseconds
 //   out    <ok|502|499|413> TAB <host:body,...>   body = none|full|empty|partial|unread
 //
@@ -38,7 +39,10 @@ import (
 // (fail_timeout >> try_duration) or are not recorded at all with try_duration = 0.
 
 type c05RetryTransport struct {
-	start  *time.Time
+	// afterFail: the health-check worker runs a pass (every backend passes its probe) once this
+	// attempt's failure has been recorded, i.e. during the try_interval sleep before the next Select
+	afterFail func()
+	start     *time.Time
 	stamps *[]time.Duration
 	idx    int
 	script string
@@ -85,6 +89,10 @@ func (t *c05RetryTransport) RoundTrip(req *http.Request) (*http.Response, error)
 	case 'K':
 		return &http.Response{StatusCode: 200, Proto: "HTTP/1.1", ProtoMajor: 1, ProtoMinor: 1, Header: http.Header{},
 			Body: io.NopCloser(strings.NewReader("ok")), ContentLength: 2, Request: req}, nil
+	case 'H':
+		if t.afterFail != nil {
+			go t.afterFail()
+		}
 	case 'C':
 		return nil, context.Canceled
 	case 'T':
@@ -161,6 +169,7 @@ func c05RetryEvalAt(f []string, start *time.Time, stamps *[]time.Duration) (stri
 	if len(pool) != len(hosts) {
 		return "setup-error:pool", nil
 	}
+	proxy.VerifSetHealthCheck(up, "/health", c05HealthOK{})
 	body := c05RetryBody(bodyLen)
 	var mu sync.Mutex
 	var log []string
@@ -176,10 +185,19 @@ func c05RetryEvalAt(f []string, start *time.Time, stamps *[]time.Duration) (stri
 			atomic.StoreInt32(&pool[i].Unhealthy, 1)
 			anyUnhealthy = true
 		}
-		if strings.ContainsAny(p[2], "FR") {
+		if strings.ContainsAny(p[2], "FRH") {
 			anyFail = true
 		}
-		pool[i].ReverseProxy.Transport = &c05RetryTransport{idx: i, script: p[2], want: body, mu: &mu, log: &log, start: start, stamps: stamps}
+		host := pool[i]
+		pool[i].ReverseProxy.Transport = &c05RetryTransport{idx: i, script: p[2], want: body, mu: &mu, log: &log, start: start, stamps: stamps,
+			afterFail: func() {
+				// wait until the loop has recorded the failure, then let the real health check run once
+				deadline := time.Now().Add(time.Second)
+				for atomic.LoadInt32(&host.Fails) == 0 && time.Now().Before(deadline) {
+					time.Sleep(50 * time.Microsecond)
+				}
+				proxy.VerifHealthCheck(up)
+			}}
 	}
 	robin, _ := strconv.ParseUint(robinS, 10, 32)
 	key := hx.UnHS(keyS)
@@ -253,6 +271,14 @@ func c05RetryEvalAt(f []string, start *time.Time, stamps *[]time.Duration) (stri
 		tags = append(tags, "trivial-all-fine")
 	}
 	return out, tags
+}
+
+// the health endpoint of every backend answers 200
+type c05HealthOK struct{}
+
+func (c05HealthOK) RoundTrip(req *http.Request) (*http.Response, error) {
+	return &http.Response{StatusCode: 200, Proto: "HTTP/1.1", ProtoMajor: 1, ProtoMinor: 1, Header: http.Header{},
+		Body: io.NopCloser(strings.NewReader("ok")), ContentLength: 2, Request: req}, nil
 }
 
 func c05RetryBody(n int) []byte {
@@ -394,6 +420,17 @@ func c05RetryGen(g *hx.Gen) {
 			continue
 		}
 		emitF("cl", "first", 0, "", tc.hosts, 0, 1, tc.d, tc.i, tc.f, 100)
+	}
+	// 2d. a flapping backend (fails every request, passes every health check, and a health-check pass runs in every
+	//     try_interval sleep) next to a healthy one: the recorded failure must keep it out, the healthy one answers
+	for _, hosts := range [][]string{{"0/0/H", "0/0/K"}, {"0/0/H", "0/0/H", "0/0/K"}, {"0/0/K", "0/0/H"}, {"0/0/H", "0/0/FK"}} {
+		for _, kind := range []string{"first", "round_robin", "ip_hash"} {
+			for _, mf := range []int{1, 2} {
+				for _, fr := range []string{"cl", "chunked"} {
+					emitF(fr, kind, 0, "10.0.0.1", hosts, 0, mf, 600, 40, 600000, 100)
+				}
+			}
+		}
 	}
 	// 3. client cancellation and over-long bodies end the loop at once
 	for _, sc := range []string{"C", "T", "FC", "RT"} {
